@@ -390,7 +390,7 @@ theorem bitfield_saturation_as_coded (v : BitVec 64) (bits : Nat) (h1 : 1 ≤ bi
     subset makes the translator fail, and this list change) -/
 theorem go_arith_translated :
     Go.translated = ["isSignedSumOverflow", "isUnsignedOverflow", "saturateValue", "signExtend", "isPowerOfTwo",
-      "hashToIndex", "sipRound", "getRangeClamp", "lrangeClamp", "bitcountClamp", "ltrimClamp", "addIntOverflowGuard", "fieldAddIntOverflowGuard"] := rfl
+      "hashToIndex", "sipRound", "getRangeClamp", "lrangeClamp", "bitcountClamp", "bitcountMasks", "ltrimClamp", "addIntOverflowGuard", "fieldAddIntOverflowGuard"] := rfl
 
 /-- `signExtend(value, bits)` translated from the Go source on this run: on a field value of width 1..64 it returns the
     two's-complement reading of the field — the model's `toSigned`, which `GET i<w>` and the signed `INCRBY` / `SET`
@@ -435,6 +435,16 @@ theorem bitcount_range_examples :
     bitcountBounds 3 (-2) (-1) = some (1, 2) ∧ bitcountBounds 3 5 9 = none ∧ bitcountBounds 3 0 100 = some (0, 2) ∧
     Go.bitcountClamp (BitVec.ofInt 64 (-2)) (BitVec.ofInt 64 (-1)) 3#64 = (false, 1#64, 2#64) ∧
     (Go.bitcountClamp 5#64 9#64 3#64).1 = true := by decide
+
+/-- The first-byte and last-byte masks of `countSetBitRange` (BITCOUNT … BIT) translated from the Go source on this run:
+    for every pair of non-negative bit positions the first keeps the bits from position `start % 8` on, the second the
+    bits up to position `end % 8` (position 0 = most significant bit, as `bitAt` numbers them: `masks_select`). -/
+theorem bitcount_masks_as_coded (s e : BitVec 64) (hs : 0 ≤ s.toInt) (he : 0 ≤ e.toInt) :
+    (Go.bitcountMasks s e).1.toNat = 2 ^ (8 - s.toNat % 8) - 1 ∧
+    (Go.bitcountMasks s e).2.toNat = 256 - 2 ^ (7 - e.toNat % 8) :=
+  go_bitcountMasks s e hs he
+
+theorem bitcount_masks_examples : Go.bitcountMasks 3#64 13#64 = (0x1f#8, 0xfc#8) := by decide
 
 /-- non-vacuity: i8, 100 + 100 overflows, 100 + 27 does not; i64 at the edge -/
 theorem bitfield_signed_overflow_examples :
